@@ -131,7 +131,13 @@ class CallMixin(object):
       yield st, self.make_exception(last, args, st)
       return
     cls = self.world.classes.get(last)
-    if cls is not None and (cls.module is None or path == '%s.%s' % (cls.module, last)):
+    if cls is None or not (cls.module is None or path == '%s.%s' % (cls.module, last)):
+      # several modules define a class of this name: the sidecar declares them under distinct names + pyname
+      mod = path.rsplit('.', 1)[0]
+      alt = self.world.class_for(mod, last) if hasattr(self.world, 'class_for') else None
+      if alt is not None and alt in self.world.classes and self.world.classes[alt].module == mod:
+        cls = self.world.classes[alt]
+    if cls is not None and (cls.module is None or path == '%s.%s' % (cls.module, cls.pyname)):
       yield from self.construct(cls, args, kw, st)
       return
     if path == 'weakref.WeakSet':
@@ -393,9 +399,15 @@ class CallMixin(object):
     """Havoc exactly the locations named by `modifies` (objects or obj.field)."""
     objs, fields, everything = [], [], False
     objkinds = {}
+    fresh_only = False
     for m in modifies:
       if m == '*':
         everything = True
+        continue
+      if m == 'fresh':
+        # besides what is listed, any object allocated since function entry may change (typical for a loop
+        # that fills a structure the function itself created)
+        fresh_only = True
         continue
       node = parse_spec(m)
       if isinstance(node, ast.Attribute):
@@ -417,15 +429,19 @@ class CallMixin(object):
       ops.heap_wf(st, st.heap, getattr(self, 'ref_fields', ()), getattr(self, 'field_kinds', None), getattr(self, 'value_kinds', None))
       return
     names = list(CONTAINER_COMPS) + ['alloc'] + [('fld', f) for _, f in fields]
+    if fresh_only:
+      names += [nm for nm in old.names() if isinstance(nm, tuple) and nm not in names]
     new = old.havoc(names)
     st.heap = new
     o = z3.Const(fresh_name('o'), U)
     e = z3.Const(fresh_name('e'), U)
     i = z3.Const(fresh_name('i'), I)
+    entry_heap = self.entry_cx.heap if fresh_only and getattr(self, 'entry_cx', None) is not None else None
+    existed = (lambda x: entry_heap.alloc(x)) if entry_heap is not None else (lambda x: old.alloc(x))
     # a modified dict changes only dom/val, a set only mem, a list only len/item/lmem
     def unt(kinds):
       return z3.And([o != m for j, m in enumerate(objs) if objkinds.get(j) in kinds + (None, 'any', 'opt', 'union')]
-                    + [old.alloc(o)])
+                    + [existed(o)])
     untouched = unt(('set', 'dict', 'list', 'vtuple'))
     st.assume(ForAllT([o, e], z3.Implies(unt(('set',)), new.mem(o, e) == old.mem(o, e))))
     st.assume(ForAllT([o, e], z3.Implies(unt(('list', 'vtuple')), new.lmem(o, e) == old.lmem(o, e))))
@@ -437,9 +453,13 @@ class CallMixin(object):
     byfield = {}
     for b, f in fields:
       byfield.setdefault(f, []).append(b)
+    if fresh_only:
+      for nm in names:
+        if isinstance(nm, tuple):
+          byfield.setdefault(nm[1], [])
     for f, bases in byfield.items():
       nf, of = new.get(('fld', f)), old.get(('fld', f))
-      st.assume(ForAllT([o], z3.Implies(z3.And([o != b for b in bases] + [old.alloc(o)]), nf(o) == of(o))))
+      st.assume(ForAllT([o], z3.Implies(z3.And([o != b for b in bases] + [existed(o)]), nf(o) == of(o))))
     ops.heap_wf(st, st.heap, getattr(self, 'ref_fields', ()), getattr(self, 'field_kinds', None), getattr(self, 'value_kinds', None))
 
   def preserve_private(self, st, old):
